@@ -478,14 +478,20 @@ func (e *vkLKExplorer) scenario(sc vkLKScenario, work *int) {
 	dfs(nil, make([]bool, len(events)))
 }
 
-func TestVerifC11Lookup(t *testing.T) { vkLKMain("C11/lookup", false) }
+func TestVerifC11Lookup(t *testing.T) { vkLKMain("C11/lookup", "") }
 
 // TestVerifC13Lookup: the same exploration restricted to the scenarios in which a request-local ending
 // (a short budget, or a capacity limit of 1) can meet an authority that answers NOERROR — judged for
 // "a zone failure is published only when every server of the zone failed" (key lookup/zone_failure_published).
-func TestVerifC13Lookup(t *testing.T) { vkLKMain("C13/sharedlookup", true) }
+func TestVerifC13Lookup(t *testing.T) { vkLKMain("C13/sharedlookup", "c13") }
 
-func vkLKMain(unit string, c13 bool) {
+// TestVerifC10Lookup: the same exploration restricted to the scenarios with at least two callers of one lookup (each spells the
+// name in its own letter case and carries its own ID and option tag) — judged for "each reply carries that query's ID and
+// question … under shared upstream lookups" (key lookup/wrong_reply).
+func TestVerifC10Lookup(t *testing.T) { vkLKMain("C10/sharedlookup", "c10") }
+
+func vkLKMain(unit string, mode string) {
+	c13 := mode == "c13"
 	c := vkit.Init(unit)
 	defer c.Close()
 	if err := vkLKStartServers(); err != nil {
@@ -539,6 +545,9 @@ func vkLKMain(unit string, c13 bool) {
 			if !ok || (sc.Cfg == "std" && !strings.ContainsRune(sc.Budgets, 'S')) {
 				continue
 			}
+		}
+		if mode == "c10" && len(sc.Budgets) < 2 {
+			continue
 		}
 		e.scenario(sc, &work)
 	}
